@@ -20,7 +20,9 @@ import numpy as np
 import xarray as xr
 
 import metricgrid as mg
-from common import dyadic_array, exc_kind, frac, pos_len
+import copy
+
+from common import dyadic_array, enc_rat, exc_kind, frac, pos_len
 
 RULE = ("grids of 1-3 axes with random position subsets; registry: per non-empty axis subset a random set of "
         "positions (complete / partial / only elsewhere / absent); every array position tuple; axis sets in "
@@ -29,7 +31,85 @@ RULE = ("grids of 1-3 axes with random position subsets; registry: per non-empty
         "product; distinct by case")
 
 
+def gen_interp_like(rng, tier, i):
+    """Grid.interp_like against its Lean model (built on the dispatcher model of C01): random layouts with all five
+    positions, the array and `like` at random positions per axis (or lacking an axis), every rule / fill spelling"""
+    from common import RULES, Layout, dyadic_array, fillv, pos_len
+    layout = Layout.random(rng, n_axes=rng.randint(1, 3), nmin=2, nmax=5, max_extra=1)
+    adims, ldims = [], []
+    for a in layout.axes:
+        r = rng.random()
+        pa, pl = rng.choice(list(a["coords"])), rng.choice(list(a["coords"]))
+        if r < 0.8:
+            adims.append((a["coords"][pa], pos_len(a["n"], pa)))
+            ldims.append((a["coords"][pl], pos_len(a["n"], pl)))
+        elif r < 0.9:
+            adims.append((a["coords"][pa], pos_len(a["n"], pa)))       # `like` lacks the axis
+        else:
+            ldims.append((a["coords"][pl], pos_len(a["n"], pl)))       # the array lacks the axis
+    if not adims:
+        a = layout.axes[0]
+        adims.append((a["coords"]["center"], a["n"]))
+    for d, s_ in layout.extra:
+        adims.append((d, s_))
+    rng.shuffle(adims)
+    rng.shuffle(ldims)
+    b = rng.choice([None, rng.choice(RULES), {a["name"]: rng.choice(RULES) for a in layout.axes if rng.random() < 0.6}])
+    f = rng.choice([None, fillv(rng), {a["name"]: fillv(rng) for a in layout.axes if rng.random() < 0.6}])
+    return {"kind": "interp_like", "layout": {"axes": layout.axes, "extra": layout.extra},
+            "grid_boundary": rng.choice(RULES), "grid_fill": fillv(rng),
+            "adims": [d for d, _ in adims], "data": dyadic_array(rng, [s_ for _, s_ in adims]).tolist(),
+            "ldims": [d for d, _ in ldims], "lshape": [s_ for _, s_ in ldims], "boundary": b, "fill": f}
+
+
+def eval_interp_like(case, drv):
+    import warnings
+
+    from common import (Layout, build_grid, canon_da, enc_arr, enc_grid, enc_kw, grid_axes_for_driver, parse_res,
+                        same_arr)
+    layout = Layout(case["layout"]["axes"], [tuple(e) for e in case["layout"]["extra"]])
+    ds, grid = build_grid(layout, boundary=case["grid_boundary"], fill_value=case["grid_fill"])
+    arr = xr.DataArray(np.array(case["data"], dtype=float).reshape([ds.sizes[d] for d in case["adims"]]),
+                       dims=case["adims"], name="m")
+    like = xr.DataArray(np.zeros(case["lshape"]), dims=case["ldims"])
+    with warnings.catch_warnings():
+        warnings.simplefilter("ignore")
+        try:
+            res = grid.interp_like(arr, like, copy.deepcopy(case["boundary"]), copy.deepcopy(case["fill"]))
+            impl = ("ok", canon_da(res))
+        except Exception as e:  # noqa: BLE001
+            impl = ("err", exc_kind(e))
+    line = (f"c10interplike {enc_grid(grid_axes_for_driver(grid))} {enc_arr(list(arr.dims), arr.values)} "
+            f"{len(case['ldims'])} {' '.join(case['ldims'])} {enc_kw(case['boundary'])} {enc_kw(case['fill'], enc_rat)}")
+    model = parse_res(drv.ask(line))
+    if impl[0] == "ok" and model[0] == "ok":
+        ok = same_arr(impl[1], model[1])
+    else:
+        ok = impl[0] == model[0] == "err"
+    # the statement for the use get_metric makes of it: with the rule "extend" every axis both arrays carry ends up
+    # at the position of `like`
+    prop_ok = ok
+    detail = None
+    if not ok:
+        detail = {"impl": str(impl)[:300], "model": str(model)[:300]}
+    elif impl[0] == "ok":
+        want_dims = set(case["adims"])
+        for a in layout.axes:
+            da_ = [d for d in case["adims"] if d in a["coords"].values()]
+            dl_ = [d for d in case["ldims"] if d in a["coords"].values()]
+            if da_ and dl_:
+                want_dims = (want_dims - set(da_)) | set(dl_)
+        if set(impl[1][0]) != want_dims:
+            prop_ok = False
+            detail = {"dims": impl[1][0], "want": sorted(want_dims)}
+    moved = sum(1 for a in layout.axes if any(d in a["coords"].values() for d in case["adims"])
+                and any(d in a["coords"].values() for d in case["ldims"]))
+    return {"corr_ok": ok, "prop_ok": prop_ok, "branch": "interp_like:" + impl[0] + f":axes{moved}", "detail": detail}
+
+
 def gen_case(rng, tier, i):
+    if rng.random() < 0.2:
+        return gen_interp_like(rng, tier, i)
     n_axes = rng.choice([1, 2, 2, 3])
     axes = mg.random_axes(rng, n_axes)
     names = [a["name"] for a in axes]
@@ -74,6 +154,7 @@ def gen_case(rng, tier, i):
     spelling = rng.choice(["tuple", "list", "str"]) if r == 1 else rng.choice(["tuple", "list"])
     return {"axes": axes, "mvars": mvars, "registry": registry, "pos": pos, "req": req,
             "grid_boundary": rng.choice(["extend", "fill", "periodic"]), "grid_fill": rng.choice([0.0, 7.0, -2.5]),
+            "data_dtype": rng.choice(["float"] * 8 + ["int", "bool"]),
             "spelling": spelling, "op": rng.choice(["get_metric", "integrate", "average", "derivative", "weighted"]),
             "seed": rng.randrange(1 << 30)}
 
@@ -131,6 +212,8 @@ def materialise(grid, ds, case, sel, like):
 
 
 def eval_case(case, drv):
+    if case.get("kind") == "interp_like":
+        return eval_interp_like(case, drv)
     import random
     import warnings
 
@@ -147,6 +230,10 @@ def eval_case(case, drv):
     dims = [next(a for a in axes if a["name"] == n)["coords"][p] for n, p in case["pos"].items()]
     rr.shuffle(dims)
     data = xr.DataArray(dyadic_array(rr, [size[d] for d in dims]), dims=dims, name="phi")
+    if case.get("data_dtype") == "int":
+        data = np.round(data).astype(np.int64)         # counts / masks-as-integers: the metric must stay a float
+    elif case.get("data_dtype") == "bool":
+        data = data > 0
     req = case["req"]
     arg = {"tuple": tuple(req), "list": list(req), "str": req[0]}[case["spelling"]]
     # ---- model selection
@@ -187,6 +274,27 @@ def eval_case(case, drv):
             and set(got.dims) <= set(data.dims)
         if not (corr_ok and prop_ok):
             detail["sel"] = {"impl_values": got.values.reshape(-1)[:6].tolist(), "model": ans, "oracle": str(want_sel)}
+        # the metric applied is a function of (registry, array): a second request on the SAME grid, for an array that
+        # sits elsewhere along some axis, must be answered as a freshly built grid answers it
+        pos2 = dict(case["pos"])
+        for a in axes:
+            if rr.random() < 0.6:
+                pos2[a["name"]] = rr.choice(list(a["coords"]))
+        dims2 = [next(a for a in axes if a["name"] == n)["coords"][p] for n, p in pos2.items()]
+        data2 = xr.DataArray(np.zeros([size[d] for d in dims2]), dims=dims2, name="psi")
+        fresh = xgcm.Grid(ds, coords=coords, boundary=gb, fill_value=case.get("grid_fill", 0.0), autoparse_metadata=False)
+        for e in case["registry"]:
+            fresh.set_metrics(tuple(e["key"]), list(e["names"]))
+
+        def ask(g_):
+            try:
+                return ("ok", g_.get_metric(data2, arg))
+            except Exception as e:  # noqa: BLE001
+                return ("err", exc_kind(e))
+        a2, f2 = ask(grid), ask(fresh)
+        if a2[0] != f2[0] or (a2[0] == "ok" and not eq(a2[1], f2[1])):
+            prop_ok = False
+            detail["history"] = {"second_request_dims": dims2, "same_grid": str(a2[1])[:120], "fresh_grid": str(f2[1])[:120]}
         branch = ("product" if want_sel and len(want_sel) > 1 else "single") + \
             (":interp" if want_sel and any(i for _, i in want_sel) else "")
         # ---- operations built on the metric
@@ -200,7 +308,7 @@ def eval_case(case, drv):
                 prop_ok = False
                 detail["integrate"] = [res.values.tolist(), want.values.tolist()]
         elif prop_ok and op == "average":
-            const = xr.full_like(data, 2.5)
+            const = xr.full_like(data, 2.5, dtype=float)
             r1 = grid.average(const, arg)
             r2 = grid.average(data, arg)
             want = (data * got).sum(odims) / (got + 0 * data).sum(odims)
